@@ -70,6 +70,53 @@ theorem pybody_stretch_stretch_eq_model {K X D Sh : Type} [Field K] [LinearOrder
           · simp [hne, hpos, hl, hh, not_lt.mpr hh]
           · simp [hne, hpos, hl, hh, not_le.mp hh]
 
+section list
+variable {K : Type} [Field K] [LinearOrder K] [IsStrictOrderedRing K]
+
+omit [Field K] [IsStrictOrderedRing K] in
+theorem pybody_minL_le (m : K) : ∀ xs : List K, minL m xs ≤ m
+  | [] => le_refl _
+  | x :: xs => by
+    simp only [minL]
+    split
+    · exact le_trans (pybody_minL_le x xs) (le_of_lt ‹x < m›)
+    · exact pybody_minL_le m xs
+
+omit [Field K] [IsStrictOrderedRing K] in
+theorem pybody_le_maxL (m : K) : ∀ xs : List K, m ≤ maxL m xs
+  | [] => le_refl _
+  | x :: xs => by
+    simp only [maxL]
+    split
+    · exact le_trans (le_of_lt ‹m < x›) (pybody_le_maxL x xs)
+    · exact pybody_le_maxL m xs
+
+/-- … and on a whole (non-empty) image given as the list of its pixels, with `img.min()` / `np.ptp` instantiated by the
+    model's `minL` / `maxL` folds: the translated body, mapped over the pixels, IS `C20.stretchList` — the definition the
+    driver runs (before the final cast). -/
+theorem pybody_stretch_stretch_eq_stretchList {D Sh : Type} (ofInt : Int → K) (flit : Nat → Nat → K)
+    (x0 : K) (rest : List K) (arg0 arg1 : Option K) (dtype dbl : D) (sh : Sh) :
+    (x0 :: rest).map (stretch_stretch (fun n => (n : K)) ofInt flit
+        ({ astype := fun g _ => g, double := dbl, min_of := fun _ => minL x0 rest,
+           ptp := fun _ => maxL (x0 - minL x0 rest) (rest.map (· - minL x0 rest)),
+           shape := fun _ => sh, zeros := fun _ _ _ => 0 } : StretchPrims K K D Sh)
+        (fun x => x) arg0 arg1 dtype)
+      = stretchList (x0 :: rest) (stretchRange (fun n => (n : K)) arg0 arg1).1 (stretchRange (fun n => (n : K)) arg0 arg1).2 := by
+  have hptp : 0 ≤ maxL (x0 - minL x0 rest) (rest.map (· - minL x0 rest)) :=
+    le_trans (sub_nonneg.mpr (pybody_minL_le x0 rest)) (pybody_le_maxL _ _)
+  have h := fun x => pybody_stretch_stretch_eq_model ofInt flit
+    ({ astype := fun g _ => g, double := dbl, min_of := fun _ => minL x0 rest,
+       ptp := fun _ => maxL (x0 - minL x0 rest) (rest.map (· - minL x0 rest)),
+       shape := fun _ => sh, zeros := fun _ _ _ => 0 } : StretchPrims K K D Sh)
+    (fun _ _ => rfl) (fun _ _ _ => rfl) (fun x => x) arg0 arg1 dtype x hptp
+  rw [funext h]
+  simp only [stretchList]
+  split
+  · rfl
+  · simp
+
+end list
+
 /-- non-vacuity: the three argument forms give three different ranges, and the affine map with the cap does something
     (integers, `ptp = 4`: `6 ↦ (6 − 2)·(255/4) = 252`, and a value carried above `hi` is capped) -/
 example : stretchRange (fun n => (n : Int)) none none = (0, 255) ∧ stretchRange (fun n => (n : Int)) (some 3) none = (0, 3) ∧
